@@ -37,6 +37,9 @@ def operand(kind, k):
         return X.num(lits[k % 8])        # replaced by the operand's largest legal value in build_stmt, where one is listed
     if kind == "zero":
         return X.num(0)
+    if kind == "bare":
+        # a bare variable of its own for every operand (P0..P6, set on line 15; the later ones descending: .75 before .25)
+        return ("var", "P%d" % k)
     if kind == "var":
         return ("bin", "+", ("var", "ABC"[k % 3]), X.num(k)) if k >= 3 else ("var", "ABC"[k % 3])
     if kind == "arr":
@@ -63,7 +66,7 @@ def operand(kind, k):
 
 
 def str_operand(kind, k):
-    if kind in ("lit", "par", "neg", "not", "same", "rnd", "big", "zero"):
+    if kind in ("lit", "par", "neg", "not", "same", "rnd", "big", "zero", "bare"):
         return ("str", ["U5", "L3", "T2"][k % 3])
     if kind in ("var", "arr"):
         return ("var", "A$" if k % 2 == 0 else "B$")
@@ -115,6 +118,13 @@ LEGAL_MAX = {("CLS", "c"): 255, ("LOCATE", "x"): 79, ("LOCATE", "y"): 23, ("ATTR
              ("HPRINT", "y"): 23, ("HPAINT", "x"): 639, ("HPAINT", "y"): 191, ("HPAINT", "c"): 15, ("HPAINT", "b"): 15,
              ("HCIRCLE", "x"): 639, ("HCIRCLE", "y"): 191, ("HCIRCLE", "c"): 15, ("HLINE", "x1"): 639, ("HLINE", "y1"): 191,
              ("HLINE", "x0"): 639, ("HLINE", "y0"): 191, ("POKE", "v"): 255}
+
+
+def _sum_vars():
+    e = ("var", "P0")
+    for i in range(1, 7):
+        e = ("bin", "+", ("bin", "*", e, X.num(2)), ("var", "P%d" % i))
+    return e
 
 
 def build_stmt(kind_name, req, present, extra, kinds):
@@ -229,6 +239,11 @@ def run_case(case):
     prog = [(10, SETUP), (20, stmts)]
     if case.get("in_if"):
         prog = [(10, SETUP), (20, [("if", ("bin", "=", ("var", "A"), X.num(3)), ("stmts", stmts), [], None)])]
+    if "bare" in kinds:
+        vals = [10, 20, 6, 2, 1, 0.75, 0.25]
+        prog.insert(1, (12, [("let", ("var", "P%d" % i), ("num", float(v), [("%g" % v).lstrip("0") or "0"]), False) for i, v in enumerate(vals)]))
+        # ... and they are all used again afterwards
+        prog.append((40, [("let", ("var", "Q"), _sum_vars(), False)]))
     if case.get("openline"):
         # an earlier line ends in a string constant without closing quote (legal at the end of a line): the quotation marks
         # of the lines behind it still pair up the way each line pairs them
@@ -274,6 +289,13 @@ def run_case(case):
             sig = "C04/HPRINT/numeric-item-through-numeric-temporary"
         obs["viols"].append({"sig": sig, "detail": dict(detail, error=b["error"])})
         return obs
+    clob = [m_ for m_ in b.get("mismatches", ()) if m_ and m_[0] == "clobbered-argument"]
+    obs["counters"]["shadow_runs"] = b.get("shadow_runs", 0)
+    if clob:
+        # BASIC09 passes variables by reference: a runtime procedure that assigns to one of its parameters changes the
+        # program's variable (found by running the procedure's body once on copies of the arguments)
+        obs["viols"].append({"sig": "C04/%s/runtime-procedure-changes-the-callers-variable" % kind_name,
+                             "detail": dict(detail, clobbered=[list(map(str, m_[1:])) for m_ in clob][:4])})
     lib = harness.library()
     exp = expected_events(cb["events"])
     got = actual_events(b["events"], lib)
@@ -356,10 +378,10 @@ def cases(tier, seed):
                     kind_sets = [[KINDS[(n + j) % len(KINDS)] for j in range(7)], ["lit"], [rng.choice(KINDS) for _ in range(7)],
                                  ["tmp", "var", "dev", "expr", "arr", "par", "lit"], ["var"], ["tmp"], ["dev", "tmp"], ["neg"], ["not"],
                                  ["var", "neg", "lit", "not"], ["lit", "lit", "lit", "neg", "not", "neg", "not"], ["same"], ["rnd"],
-                                 ["same", "lit"], ["lit", "rnd"], ["big"], ["zero"], ["lit", "big"], ["big", "zero", "big"],
+                                 ["same", "lit"], ["lit", "rnd"], ["big"], ["zero"], ["lit", "big"], ["big", "zero", "big"], ["bare"],
                                  [rng.choice(KINDS) for _ in range(7)]]
                 else:
-                    kind_sets = [[k] for k in KINDS] + [["same"], ["rnd"], ["big"], ["zero"], ["lit", "big"], ["big", "lit"], ["big", "zero", "big"], ["same", "lit"], ["lit", "same"], ["rnd", "lit"], ["lit", "rnd"],
+                    kind_sets = [[k] for k in KINDS] + [["same"], ["rnd"], ["bare"], ["big"], ["zero"], ["lit", "big"], ["big", "lit"], ["big", "zero", "big"], ["same", "lit"], ["lit", "same"], ["rnd", "lit"], ["lit", "rnd"],
                                                         ["same", "rnd"], ["lit", "lit", "same"], ["same", "var", "same"]] + [list(t) for t in itertools.islice(itertools.permutations(KINDS, 7), 0, 181440, 9000)] + \
                                 [[rng.choice(KINDS) for _ in range(7)] for _ in range(6)]
                 if tier == "thorough":
